@@ -22,7 +22,10 @@ use crate::{
 };
 use ast::{
     Position,
-    operations::{check_labels, contains_invalid_object_literal},
+    operations::{
+        check_labels, contains_invalid_object_literal, lexically_declared_names,
+        var_declared_names,
+    },
 };
 use boa_ast::{
     self as ast, Punctuator, Span, Spanned,
@@ -31,6 +34,7 @@ use boa_ast::{
     function::{FormalParameterList, FormalParameterListFlags, FunctionBody as AstFunctionBody},
 };
 use boa_interner::{Interner, Sym};
+use rustc_hash::FxHashSet;
 
 /// Formal parameters parsing.
 ///
@@ -513,6 +517,31 @@ where
                 .end()
         };
 
-        Ok(AstFunctionBody::new(body, Span::new(start, end)))
+        let body = AstFunctionBody::new(body, Span::new(start, end));
+
+        // FunctionStatementList early errors (shared by every kind of function body):
+        // It is a Syntax Error if the LexicallyDeclaredNames of FunctionStatementList contains any duplicate entries.
+        let mut lexical_names = FxHashSet::default();
+        for name in lexically_declared_names(&body) {
+            if !lexical_names.insert(name) {
+                return Err(Error::general(
+                    "lexical name declared multiple times",
+                    start,
+                ));
+            }
+        }
+
+        // It is a Syntax Error if any element of the LexicallyDeclaredNames of FunctionStatementList
+        // also occurs in the VarDeclaredNames of FunctionStatementList.
+        for name in var_declared_names(&body) {
+            if lexical_names.contains(&name) {
+                return Err(Error::general(
+                    "lexical name declared multiple times",
+                    start,
+                ));
+            }
+        }
+
+        Ok(body)
     }
 }
